@@ -318,12 +318,11 @@ func H_C18_k2p_deep() {
 }
 
 // H_C18_k2p_semigroup: K80: P(s+t) = P(s) P(t).
-// bounds: kappa in {1/2, 2}; s, t symbolic in [1e-8, 100]
+// bounds: kappa in {1/2, 1, 2, 4}; s, t symbolic in [1e-8, 100]
 // outside: IEEE rounding is outside the claim: floats are exact reals
 // assumes: exp(a(s+t)) = exp(as) exp(at) for each eigenvalue a
-//verif: tier=thorough
 func H_C18_k2p_semigroup() {
-	kappa := []float64{0.5, 2}[nondetRange(0, 1)]
+	kappa := vfC18Kappas[nondetRange(0, len(vfC18Kappas)-1)]
 	m := NewK2PModel()
 	m.InitModel(kappa)
 	vfC18CheckSemigroup(m, vfC18Get(m), vfC18T(), vfC18T())
@@ -394,13 +393,36 @@ func H_C18_f84_deep() {
 	vfC18F84(append(append([]float64{}, vfC18F84Kappas...), vfC18F84KappasThorough...), all)
 }
 
-// H_C18_f84_semigroup: F84: P(s+t) = P(s) P(t).
-// bounds: kappa = 2, frequencies (1/2,1/4,1/8,1/8); s, t symbolic in [1e-8, 100]
-// outside: IEEE rounding is outside the claim: floats are exact reals
+// vfC18CheckSemigroupEigen: the semigroup law on the eigen form R exp(Dt) L computed by the harness
+// from Eigens() (the library's F84 probabilities are proved equal to that form, up to the
+// positivity floor, by H_C18_f84; through the floored values the query is out of reach of the
+// solver).
+func vfC18CheckSemigroupEigen(sy vfC18Sys, s, t float64) {
+	es, et, est := vfC18Exps(sy, s), vfC18Exps(sy, t), vfC18Exps(sy, s+t)
+	for k := 0; k < 4; k++ {
+		assume(est[k] == es[k]*et[k] || !verifSymbolic())
+	}
+	ps, pt, pst := vfC18EigenForm(sy, es), vfC18EigenForm(sy, et), vfC18EigenForm(sy, est)
+	for i := 0; i < 4; i++ {
+		for j := 0; j < 4; j++ {
+			v := 0.0
+			for k := 0; k < 4; k++ {
+				v += ps[i][k] * pt[k][j]
+			}
+			verifAssert(vfC18Close(pst[i][j], v), "eigen form: P(s+t) = P(s) P(t)")
+		}
+	}
+	verifReach("semigroup")
+}
+
+// H_C18_f84_semigroup: F84: P(s+t) = P(s) P(t) on the eigen form R exp(Dt) L built from Eigens().
+// bounds: kappa in {1/2, 2}; base frequencies in {uniform, (1/2,1/4,1/8,1/8), (1/8,1/8,1/4,1/2)}; s, t symbolic in [1e-8, 100]
+// outside: the floored values reported by models.Pij (equal to the eigen form by H_C18_f84; through the floor the nonlinear query does not finish); IEEE rounding is outside the claim: floats are exact reals
 // assumes: exp(a(s+t)) = exp(as) exp(at) for each eigenvalue a
-//verif: tier=thorough
 func H_C18_f84_semigroup() {
+	kappa := vfC18F84Kappas[nondetRange(0, len(vfC18F84Kappas)-1)]
+	pi := vfC18Pis[nondetRange(0, len(vfC18Pis)-1)]
 	m := NewF84Model()
-	m.InitModel(2, 0.5, 0.25, 0.125, 0.125)
-	vfC18CheckSemigroup(m, vfC18Get(m), vfC18T(), vfC18T())
+	m.InitModel(kappa, pi[0], pi[1], pi[2], pi[3])
+	vfC18CheckSemigroupEigen(vfC18Get(m), vfC18T(), vfC18T())
 }
